@@ -95,6 +95,8 @@ pub fn reset_flags() {
 /// including `"ops":"`.
 pub fn ctx_begin(head: &str) {
     crate::shared::set_ctx(head);
+    // every execution start is a sign of life for the supervisor's watchdog
+    sh().heartbeat += 1;
 }
 
 /// Append one issued call to the context.
